@@ -91,6 +91,8 @@ def gen_config(rng, thorough, ci=0):
         kw['eps'] = eps_pick
     if rng.random() < 0.15:
         kw['manual_ema_update'] = True
+    if ci % 4 == 0 and heads == 1:
+        kw['orthogonal_reg_weight'] = 0.5        # the codebook is an nn.Parameter AND maintained by the EMA
     vq = VectorQuantize(**kw)
     return vq, kw, d, heads, cosine, K
 
@@ -132,6 +134,11 @@ def correspond(ctx, scale):
                 # per-call option: target codes for the cross-entropy loss (`indices=`); the codebook statistics must follow the same law
                 kwargs['indices'] = torch.randint(0, K, (b, n, heads) if heads > 1 else (b, n))
                 dist['with_target_indices'] = dist.get('with_target_indices', 0) + 1
+            if t == 1 and ('orthogonal_reg_weight' in kw or ci % 7 == 2) and any(True for _ in vq.parameters()):
+                # parameters frozen by the caller (requires_grad_(False) on the whole module, a Parameter-backed EMA codebook included): it is still a
+                # training step with EMA updates enabled, the law holds
+                vq.requires_grad_(False)
+                dist['frozen_parameter_steps'] = dist.get('frozen_parameter_steps', 0) + 1
             if t > 0 and (t + ci) % 5 == 4:
                 # decay SCHEDULE: the public attribute is changed on the live codebook; the next step follows the decay the module has now
                 cb.decay = rng.choice([0.5, 0.25, 0.75, 0.0, 1.0, 0.9])
